@@ -434,7 +434,7 @@ func (e *SpecEnv) call(x *ast.CallExpr) Val {
 			return e.iteVal(lt, b, a)
 		}
 		return e.iteVal(lt, a, b)
-	case "forall", "exists":
+	case "forall", "exists", "forall_t":
 		return e.quant(name, x)
 	case "forall_slice":
 		// forall_slice(elemtype, m, body): for every slice m of that element type
@@ -573,6 +573,16 @@ func (e *SpecEnv) quant(kind string, x *ast.CallExpr) Val {
 	st := e.st
 	args := x.Args
 	var typ types.Type = types.Typ[types.Int]
+	var trigX ast.Expr
+	if kind == "forall_t" {
+		// forall_t(k, lo, hi, trigger, body)
+		if len(args) != 5 {
+			return e.fail("forall_t(k, lo, hi, trigger, body)")
+		}
+		trigX = args[3]
+		args = append(append([]ast.Expr(nil), args[:3]...), args[4])
+		kind = "forall"
+	}
 	if len(args) == 5 {
 		tn := exprString(args[0])
 		bk, ok := basicKindByName[tn]
@@ -622,7 +632,14 @@ func (e *SpecEnv) quant(kind string, x *ast.CallExpr) Val {
 		e.err = sub.err
 	}
 	var t Term
-	if kind == "forall" {
+	if kind == "forall" && trigX != nil {
+		tv := sub.eval(trigX)
+		ts, ok := tv.(Scalar)
+		if !ok {
+			return e.fail("trigger must be a scalar term")
+		}
+		t = Term{fmt.Sprintf("(forall ((%s %s)) (! %s :pattern (%s)))", bn, ii.sort(), tImplies(tAnd(guards...), body).S, ts.T.S), SBool}
+	} else if kind == "forall" {
 		t = Term{fmt.Sprintf("(forall ((%s %s)) %s)", bn, ii.sort(), tImplies(tAnd(guards...), body).S), SBool}
 	} else {
 		t = Term{fmt.Sprintf("(exists ((%s %s)) %s)", bn, ii.sort(), tAnd(append(guards, body)...).S), SBool}
